@@ -93,6 +93,7 @@ TEMPLATES = [
     ('slice_empty', _slice({'k': 'slice', 'a': 0, 'b': 0, 'c': None})),
     ('ilist_list', _ilist('list')),
     ('ilist_np', _ilist('np64')),
+    ('ilist_nonzero_style', _ilist('nested_np')),
     ('mask', _mask),
     ('mask_pylist', _mask_list),
     ('keylist', _keys),
